@@ -197,15 +197,6 @@ impl Position {
         }
     }
 
-    pub fn translate(&mut self, dx: f32, dy: f32) {
-        self.xmin = self.xmin.map(|x| x + dx);
-        self.xmax = self.xmax.map(|x| x + dx);
-        self.cx = self.cx.map(|x| x + dx);
-        self.ymin = self.ymin.map(|y| y + dy);
-        self.ymax = self.ymax.map(|y| y + dy);
-        self.cy = self.cy.map(|y| y + dy);
-    }
-
     pub fn set_position_attrs(&self, element: &mut SvgElement) {
         // TODO: should this return an error if no BBox?
         if let Some(bbox) = self.to_bbox() {
